@@ -440,7 +440,7 @@ func runRaceWorkload(wl workload, seed int64, scale int) (*childResult, error) {
 		runtime.GOMAXPROCS(4)
 	}
 	const writers = 8
-	batches, rounds := 5*scale, 300
+	batches, rounds := 8*scale, 1000
 	res := &childResult{Workload: wl.Name, Violations: []hk.Violation{}}
 	violate := func(fp, what string, in, observed any) {
 		for _, v := range res.Violations {
@@ -460,15 +460,27 @@ func runRaceWorkload(wl workload, seed int64, scale int) (*childResult, error) {
 		for r := 0; r < rounds; r++ {
 			name := fullName(wl.Kind, fmt.Sprintf("fresh%d_%d_%d", seed, b, r))
 			names = append(names, name)
+			// odd rounds: released by a channel close; even rounds: a spin barrier (all callers already running)
 			gate := make(chan struct{})
+			var ready atomic.Int32
 			var wg sync.WaitGroup
 			for w := 0; w < writers; w++ {
 				w := w
 				wg.Add(1)
 				go func() {
 					defer wg.Done()
-					<-gate
-					e.register(wl.Kind, name, w+1, w+2*(w%2)) // resources: RegisterResource and RegisterResources mixed
+					call := e.prepare(wl.Kind, name, w+1, w+2*(w%2)) // resources: RegisterResource and RegisterResources mixed
+					if r%2 == 1 {
+						<-gate
+					} else {
+						ready.Add(1)
+						for spins := 0; ready.Load() < writers && spins < 1<<20; spins++ {
+							if spins%64 == 63 {
+								runtime.Gosched()
+							}
+						}
+					}
+					call()
 				}()
 			}
 			close(gate)
